@@ -350,8 +350,8 @@ struct CaseOut {
     child_calls: Vec<(usize, i64)>,
     fork_idx: Option<usize>,
     leaked: BTreeSet<String>,
+    fault_names: Vec<String>,
     totals: HashMap<&'static str, usize>,
-    any_hit: bool,
 }
 
 struct Ctx<'a> {
@@ -359,6 +359,10 @@ struct Ctx<'a> {
     /// labels leaked by the fault-free run (the same defect is not re-keyed per failing call)
     base_leaks: Option<&'a BTreeSet<String>>,
     base_totals: Option<&'a HashMap<&'static str, usize>>,
+    /// what each single deviation leaked (to blame the right call of a pair)
+    single_leaks: Option<&'a HashMap<Fault, BTreeSet<String>>>,
+    /// the same by (failing syscall, errno): an earlier tolerated deviation can shift the index of the second one
+    single_leaks_by_name: Option<&'a HashMap<(String, i32), BTreeSet<String>>>,
     verbose: bool,
 }
 
@@ -502,24 +506,41 @@ fn run_case(s: &mut Scn, env: &mut Env, faults: &[Fault], drop_close: Option<i32
         (0..n).map(|i| (shp.recs[i].idx as usize, shp.recs[i].nr as i64)).collect()
     };
     let fdesc = fault_desc(&child_calls);
-    let failing_name: String = faults
-        .iter()
-        .zip(hit.iter())
-        .filter(|(f, h)| **h || f.child)
-        .map(|(f, _)| {
-            if f.child {
-                format!("child-{}", child_calls.iter().find(|c| c.0 == f.k).map(|c| sysx::name(c.1)).unwrap_or("?"))
-            } else {
-                log_a.get(f.k).map(|c| sysx::name(c.nr)).unwrap_or("?").to_string()
+    // the call blamed in `...-on-failure:<which>@<failing>`
+    let fault_name = |f: &Fault| -> String {
+        if f.child {
+            format!("child-{}", child_calls.iter().find(|c| c.0 == f.k).map(|c| sysx::name(c.1)).unwrap_or("?"))
+        } else {
+            log_a.get(f.k).map(|c| sysx::name(c.nr)).unwrap_or("?").to_string()
+        }
+    };
+    let blame = |which: &str| -> String {
+        if faults.len() == 1 {
+            return fault_name(&faults[0]);
+        }
+        // a pair: the deviation that leaks this descriptor on its own, else both
+        if let Some(sl) = cx.single_leaks {
+            for f in faults {
+                if sl.get(f).map(|l| l.contains(which)).unwrap_or(false) {
+                    return fault_name(f);
+                }
             }
-        })
-        .next()
-        .unwrap_or_else(|| "none".into());
+        }
+        if let Some(sl) = cx.single_leaks_by_name {
+            for f in faults {
+                if sl.get(&(fault_name(f), f.errno)).map(|l| l.contains(which)).unwrap_or(false) {
+                    return fault_name(f);
+                }
+            }
+        }
+        faults.iter().map(&fault_name).collect::<Vec<_>>().join("+")
+    };
     let ctxt = if faults.is_empty() { "fault-free run".to_string() } else { fdesc.clone() };
 
-    let mut out = CaseOut { totals: totals.clone(), fork_idx, any_hit, ..Default::default() };
+    let mut out = CaseOut { totals: totals.clone(), fork_idx, ..Default::default() };
     out.parent_calls = log_a.iter().map(|c| c.nr).collect();
     out.child_calls = child_calls.clone();
+    out.fault_names = faults.iter().map(&fault_name).collect();
 
     if let Some(p) = &panic_msg {
         r.violation(&format!("C12:{name}:panic"), format!("{name} panicked ({ctxt}): {p}"), cj.clone());
@@ -543,7 +564,7 @@ fn run_case(s: &mut Scn, env: &mut Env, faults: &[Fault], drop_close: Option<i32
             let key = if faults.is_empty() || in_base {
                 format!("C12:{name}:fd-left-open:{which}")
             } else {
-                format!("C12:{name}:fd-left-open-on-failure:{which}@{failing_name}")
+                format!("C12:{name}:fd-left-open-on-failure:{which}@{}", blame(&which))
             };
             r.violation(
                 &key,
@@ -575,7 +596,7 @@ fn run_case(s: &mut Scn, env: &mut Env, faults: &[Fault], drop_close: Option<i32
     if is_err && !sh.maps.is_empty() {
         r.violation(
             &format!("C12:{name}:mapping-leaked"),
-            format!("{name}, {ctxt}: returned {res_txt} but {} mapping(s) created by the operation are still mapped: {:x?}", sh.maps.len(), sh.maps),
+            format!("{name}, {ctxt}: returned {res_txt} but {} mapping(s) created by the operation are still mapped: {}", sh.maps.len(), sh.maps.iter().map(|m| format!("addr {:#x} len {}", m.0, m.1)).collect::<Vec<_>>().join(", ")),
             cj.clone(),
         );
         for (a, l) in sh.maps.drain(..) {
@@ -609,7 +630,7 @@ fn run_case(s: &mut Scn, env: &mut Env, faults: &[Fault], drop_close: Option<i32
         if !sh.maps.is_empty() {
             r.violation(
                 &format!("C12:{name}:mapping-leaked"),
-                format!("{name}, {ctxt}: {} mapping(s) still mapped after the returned value was dropped: {:x?}", sh.maps.len(), sh.maps),
+                format!("{name}, {ctxt}: {} mapping(s) still mapped after the returned value was dropped: {}", sh.maps.len(), sh.maps.iter().map(|m| format!("addr {:#x} len {}", m.0, m.1)).collect::<Vec<_>>().join(", ")),
                 cj.clone(),
             );
         }
@@ -729,11 +750,11 @@ fn run_scenario(mut s: Scn, thorough: bool) -> Report {
     }
     let shared = alloc_shared();
     let name = s.name.clone();
-    let cx0 = Ctx { shared, base_leaks: None, base_totals: None, verbose: false };
+    let cx0 = Ctx { shared, base_leaks: None, base_totals: None, single_leaks: None, single_leaks_by_name: None, verbose: false };
     let base = run_case(&mut s, &mut env, &[], None, &mut r, &cx0);
     let base_leaks = base.leaked.clone();
     let base_totals = base.totals.clone();
-    let cx = Ctx { shared, base_leaks: Some(&base_leaks), base_totals: Some(&base_totals), verbose: false };
+    let cx = Ctx { shared, base_leaks: Some(&base_leaks), base_totals: Some(&base_totals), single_leaks: None, single_leaks_by_name: None, verbose: false };
     let n = base.parent_calls.len();
     r.bound(&format!("calls[{name}]"), json!({"parent": n, "child": base.child_calls.iter().filter(|c| c.1 != libc::SYS_fork).count()}));
     for nr in base.parent_calls.iter().chain(base.child_calls.iter().map(|c| &c.1)) {
@@ -748,33 +769,41 @@ fn run_scenario(mut s: Scn, thorough: bool) -> Report {
     let mut seen: HashSet<Vec<Fault>> = HashSet::new();
     let singles = points(&base, thorough);
     let do_pairs = thorough && n <= 12;
+    let mut single_out: Vec<(Fault, CaseOut)> = Vec::new();
+    let mut single_leaks: HashMap<Fault, BTreeSet<String>> = HashMap::new();
+    let mut single_by_name: HashMap<(String, i32), BTreeSet<String>> = HashMap::new();
     for f1 in &singles {
         let fs = vec![*f1];
         if !seen.insert(fs.clone()) {
             continue;
         }
         let o1 = run_case(&mut s, &mut env, &fs, None, &mut r, &cx);
-        if !do_pairs {
-            continue;
-        }
-        for f2 in points(&o1, true) {
-            // strictly later than the first deviation on the same side; on the other side only what runs after the fork
-            let later = if f2.child == f1.child {
-                f2.k > f1.k
-            } else if f2.child {
-                true
-            } else {
-                o1.fork_idx.map(|fi| f2.k > fi).unwrap_or(false)
-            };
-            if !later {
-                continue;
+        single_leaks.insert(*f1, o1.leaked.clone());
+        single_by_name.entry((o1.fault_names[0].clone(), f1.errno)).or_default().extend(o1.leaked.iter().cloned());
+        single_out.push((*f1, o1));
+    }
+    if do_pairs {
+        let cx2 = Ctx { shared, base_leaks: Some(&base_leaks), base_totals: Some(&base_totals), single_leaks: Some(&single_leaks), single_leaks_by_name: Some(&single_by_name), verbose: false };
+        for (f1, o1) in &single_out {
+            for f2 in points(o1, true) {
+                // strictly later than the first deviation on the same side; on the other side only what runs after the fork
+                let later = if f2.child == f1.child {
+                    f2.k > f1.k
+                } else if f2.child {
+                    true
+                } else {
+                    o1.fork_idx.map(|fi| f2.k > fi).unwrap_or(false)
+                };
+                if !later {
+                    continue;
+                }
+                let mut fs2 = vec![*f1, f2];
+                fs2.sort();
+                if !seen.insert(fs2.clone()) {
+                    continue;
+                }
+                run_case(&mut s, &mut env, &fs2, None, &mut r, &cx2);
             }
-            let mut fs2 = vec![*f1, f2];
-            fs2.sort();
-            if !seen.insert(fs2.clone()) {
-                continue;
-            }
-            run_case(&mut s, &mut env, &fs2, None, &mut r, &cx);
         }
     }
     if let Some(f) = s.fini.as_mut() {
@@ -824,13 +853,13 @@ fn replay(v: &Value) -> Report {
     }
     let shared = alloc_shared();
     let mut scratch = Report::new();
-    let cx0 = Ctx { shared, base_leaks: None, base_totals: None, verbose: faults.is_empty() && drop_close.is_none() };
+    let cx0 = Ctx { shared, base_leaks: None, base_totals: None, single_leaks: None, single_leaks_by_name: None, verbose: faults.is_empty() && drop_close.is_none() };
     let base = run_case(&mut s, &mut env, &[], None, &mut scratch, &cx0);
     let mut r = Report::new();
     if faults.is_empty() && drop_close.is_none() {
         r = scratch;
     } else {
-        let cx = Ctx { shared, base_leaks: Some(&base.leaked), base_totals: Some(&base.totals), verbose: true };
+        let cx = Ctx { shared, base_leaks: Some(&base.leaked), base_totals: Some(&base.totals), single_leaks: None, single_leaks_by_name: None, verbose: true };
         run_case(&mut s, &mut env, &faults, drop_close, &mut r, &cx);
     }
     if let Some(f) = s.fini.as_mut() {
